@@ -110,7 +110,7 @@ Example C14_example_trace :
               ECreate 1 "u" cB (tmp_prefix ++ "22" ++ tmp_suffix); EWrite 1 2] in
   let tr2 := [ECreate 2 "u" cB (tmp_prefix ++ "333" ++ tmp_suffix); EWrite 2 6; EClose 2; ERename 2; ECrash 1] in
   let tr3 := [ERead 7 4; ECreate 3 "u" cA (tmp_prefix ++ "4" ++ tmp_suffix); EWrite 3 4; EClose 3; ERename 3; ERead 7 9; EEof 7] in
-  let tr := tr1 ++ ERename 0 :: tr2 ++ EOpen 7 "u" :: tr3 in
+  let tr := (tr1 ++ ERename 0 :: tr2 ++ EOpen 7 "u" :: tr3)%list in
   forallb safe tr = true /\
   exists s rr, exec sha0 init tr = Some s /\ getN 7%N (s_r s) = Some rr /\ r_st rr = RDone (Hit cB) /\
     List.length (s_dir s) = 2%nat.
